@@ -768,8 +768,16 @@ class _StringLiteral(str):
         return self._parse_function(${ctx}_text, _pos)
 
 
+class _BytesLiteral(bytes):
+    def __call__(self, ${ctx}_text, _pos):
+        return self._parse_function(${ctx}_text, _pos)
+
+
 def _wrap_string_literal(string_value, parse_function):
-    result = _StringLiteral(string_value)
+    if isinstance(string_value, bytes):
+        result = _BytesLiteral(string_value)
+    else:
+        result = _StringLiteral(string_value)
     result._parse_function = parse_function
     return result
 
@@ -1045,6 +1053,7 @@ from $super_module import (
     Postfix,
     Prefix,
     _ByteLiteral,
+    _BytesLiteral,
     _Context,
     _IGNORECASE,
     _Metadata,
